@@ -100,12 +100,16 @@ def _send_exists(ex, recv, args, kwargs, line):
     return None
 
 
-@contract(W, 'dawgie/db/shelve/comms.py', 'Worker.do', props=['C07'])
+key_text = z3.Function('key_text', ATOM.sort(), ATOM.sort())           # str(request.keyset)
+
+
+@contract(W, 'dawgie/db/shelve/comms.py', 'Worker.do', props=['C07', 'C06'])
 class worker_do_set(ContractBase):
     """the Func.set branch of the database server (other requests are outside this contract: `requires`)"""
     params = {'self': DBW, 'request': SETREQ}
     modifies = [STORED, CONTENT, STG, PRIME, 'DbWorker.ghost_set_answer']
-    abstract = {'DBI().tables[request.table.value]': _prime_table, 'str(request.keyset)': ATOM}
+    abstract = {'DBI().tables[request.table.value]': _prime_table,
+                'str(request.keyset)': lambda ex, e: V(key_text(SETREQ.get(ex.to_z3(ex.st.env['request'], SETREQ), 'keyset')), ATOM)}
     methods = {('DbWorker', '_send'): _send_exists}
     inline_callees = []
 
@@ -121,8 +125,14 @@ class worker_do_set(ContractBase):
     def ensures(c):
         s, r = c['self'], c['request']
         name = Tup(STAGED, BLOB).get(SETREQ.get(r, 'value'), '_1')
+        k = c.sk('k', ATOM)
+        P = MapOf(ATOM, BLOB)
+        key = key_text(SETREQ.get(r, 'keyset'))
         return {'no-dangling-catalogue-entry': R2(c.cur),
-                'client-told-whether-content-existed': c.cur.f('DbWorker.ghost_set_answer', s) == Opt(BOOL).some(c.old.g(STORED)[name])}
+                'client-told-whether-content-existed': c.cur.f('DbWorker.ghost_set_answer', s) == Opt(BOOL).some(c.old.g(STORED)[name]),
+                # every stored value is catalogued under its own key, whether or not its content was already in the store
+                'catalogued-under-its-own-key': c.cur.g(PRIME)[key] == P.opt.some(name),
+                'other-catalogue-entries-untouched': Implies(k != key, c.cur.g(PRIME)[k] == c.old.g(PRIME)[k])}
 
 
 # ---------------------------------------------------------------- Interface._update / _update_msv: the novelty reports
